@@ -48,7 +48,8 @@ def gen_plan(seed, i, tier):
         init = synth.synth_init(rng.choice(synth.VERSIONS), t, rng.below(1 << 20), k=rng.range(2, 4), helpers=8)
     plan = {'property': PROP, 'profile': 'sortprune', 'run_index': i, 'init': init, 'timeout_s': 90}
     if rng.chance(0.4):
-        plan['pre'] = [edits.edit_step(rng, 'quick', allow=GROW, version_hint=ver) for _ in range(rng.range(1, 5))]
+        grow = GROW if 'synth' not in init else ['AddNode', 'AddExtraData', 'AddLooseBlock', 'SetNodeName', 'ReplaceWithClone']
+        plan['pre'] = [edits.edit_step(rng, 'quick', allow=grow, version_hint=ver) for _ in range(rng.range(1, 5))]
     steps = []
     for _ in range(rng.range(1, 5)):
         op = rng.weighted([('PrettySort', 4), ('Optimize', 2), ('SetShapeOrder', 4), ('SaveDefault', 3), ('Restart', 1)])
